@@ -75,8 +75,51 @@ Example C02_example :
   end.
 Proof. vm_compute. split; reflexivity. Qed.
 
+(* ---- histories ---- *)
+From AV.Model Require Import Interp.
+From AV.Spec Require Import WorldSpec.
+From AV.Proofs Require Import WorldProofs.
+(** WHOLE HISTORIES: drain is part of the history fragment of AV.Props.C01 - for EVERY range in every RangeBounds form (invalid ranges panic with the right kind before anything changes: [C02_into_range_panics]), EVERY sequence of next / next_back calls of any length (also after exhaustion) whose items are dropped or downcast, erased and typed variant, iterator dropped or leaked: the list specification [WorldSpec.sp_drain] (yielded values front-ascending / back-descending, exact size hints, Vec::drain's result, the un-yielded values destroyed in order) is what the byte-level machine does, inside any history of any number of vectors ([C01_history_refines] now covers ODrain; [C02_walk] is the per-pattern induction).  Splice inside histories and item sinks that move values into other vectors remain PARTIAL (one-step theorems above + correspondence). *)
+Theorem C02_into_range_panics :
+  forall (len : N) (sb eb : bound) (s : st),
+         range_of_bounds usize_max len (to_sb sb) (to_sb eb) = None ->
+         into_range len sb eb s = Panic (range_panic sb eb) s.
+Proof. exact into_range_panic. Qed.
+
+Theorem C02_walk :
+  forall (c : cfg) (w : world) (vid : nat) (av : avec) (vv : vec) (s e : nat) (a : api),
+         VI c vv av ->
+         (s <= e)%nat ->
+         (e <= length (a_xs av))%nat ->
+         forall (cleanup : cursor -> M world unit) (pat : list (bool * sink)) (i j : nat) 
+           (ww : world) (evs : list event) (rets ds : list N) (i' j' : nat),
+         Walking w vid vv s ww evs ->
+         (s <= i)%nat ->
+         (i <= j)%nat ->
+         (j <= e)%nat ->
+         sp_walk (a_xs av) pat i j = Some (rets, ds, i', j') ->
+         exists ww' : world,
+           walk c vid a cleanup pat {| ci := N.of_nat i; ce := N.of_nat j |} ww =
+           Ok (rets, {| ci := N.of_nat i'; ce := N.of_nat j' |}) ww' /\
+           Walking w vid vv s ww' (evs ++ flat_map (drop_ev c) ds) /\ (i <= i')%nat /\ (i' <= j' <= j)%nat.
+Proof. exact walk_spec. Qed.
+
+Theorem C02_drain_in_histories :
+  forall (c : cfg) (w : world) (st : astate) (a : api) (vid : nat) (sb eb : bound)
+           (pat : list (bool * sink)) (f : fin) (r : sres),
+         cfg_wf c ->
+         WRep c w st ->
+         ufuse (wuw w) = None ->
+         sp_drain c st (unext (wuw w)) vid sb eb pat f = Some r ->
+         res_matches c w (exec c (ODrain a vid sb eb pat f) w) r.
+Proof. exact exec_drain. Qed.
+
+(* ---- end histories ---- *)
 Print Assumptions C02_into_range.
 Print Assumptions C02_drain_new.
 Print Assumptions C02_alive_init.
 Print Assumptions C02_drain_drop.
 Print Assumptions C02_splice_drop.
+Print Assumptions C02_into_range_panics.
+Print Assumptions C02_walk.
+Print Assumptions C02_drain_in_histories.
